@@ -47,6 +47,7 @@ type FuncContract struct {
 	AbstractCallees []string // calls havocked while verifying this function
 	ModAny   bool // "modifies *": no frame is claimed
 	InlineCallees []string // callees whose bodies are used instead of their contracts here
+	Cases    []*Clause // verify once per truth assignment of these boolean expressions
 	SplitParam string // enumerate this integer parameter over [SplitLo, SplitHi]
 	SplitLo, SplitHi int64
 	Resets   []*ResetClause
@@ -736,6 +737,20 @@ func (w *World) parseContractFile(pkgPath, file string) error {
 				rc.Scratch = append(rc.Scratch, f)
 			}
 			cur.Resets = append(cur.Resets, rc)
+		case "cases":
+			if cur == nil {
+				return fail(l.n, "cases outside func")
+			}
+			for _, part := range splitTop(rest, ',') {
+				cl, err := mkClause(part, l.n)
+				if err != nil {
+					return err
+				}
+				cur.Cases = append(cur.Cases, cl)
+			}
+			if len(cur.Cases) > 6 {
+				return fail(l.n, "at most 6 case expressions")
+			}
 		case "abstract":
 			if cur == nil {
 				return fail(l.n, "abstract outside func")
@@ -2093,7 +2108,7 @@ func patternSafe(t *Term) bool {
 		}
 		seen[x] = true
 		switch x.Op {
-		case "ite", "not", "and", "or", "=", "bvult", "bvule", "bvslt", "bvsle", "forall", "exists":
+		case "ite", "not", "and", "or", "=", "bvult", "bvule", "bvslt", "bvsle", "forall", "exists", "lambda":
 			return false
 		}
 		if x.S == BoolSort && x.Op != "var" && x.Op != "const" {
